@@ -245,8 +245,11 @@ def run(tier, seed, budget):
         for sh in SHAPES:
             idx += 1
             rot = bool(sh[1].get('rotation'))
-            tasks.append({'binary': binary, 'seed': seed, 'idx': idx, 'shape': sh, 'n_sched': (110 if rot else 220) if q else (600 if rot else 2500),
-                          'per_prog': 120 if q else 1500, 'per_prog_random': 8 if q else 12, 'wall': 60 if q else 600,
+            tasks.append({'binary': binary, 'seed': seed, 'idx': idx, 'shape': sh, 'n_sched': (60 if rot else 220) if q else (600 if rot else 2500),
+                          'per_prog': 120 if q else 1500, 'per_prog_random': 8 if q else 12,
+                          # quick is bounded by schedule counts; its wall limit is a watchdog only, so that a loaded machine changes the
+                          # duration of the run and not its coverage
+                          'wall': 900 if q else 600,
                           'free': (rnd % 4 == 1) if q else (rnd % 4 == 3)})
     t_total = 0
     for t, res in pmap(worker, tasks, budget_s=budget):
